@@ -75,56 +75,157 @@ type c19Case struct {
 
 const c19Marker = "zzverif"
 
-func c19NumDocs(repo, ver int) int { return 1 + (ver*5+repo*3)%4 }
+// Building a shard costs tens of seconds under the race detector on a loaded
+// machine (index.NewShardBuilder allocates two 16 MiB tables and a large map,
+// whose shadow memory has to be reset). So only two genuine shards are built
+// with index.NewShardBuilder, one per document count, with fixed-width
+// placeholders for the repository and the content version; the shard of
+// (repository, version) is a copy with the placeholders overwritten (content,
+// repository metadata JSON: same length, no checksums involved; the trigram
+// index of the placeholder characters goes stale, nothing searches for them).
+// c19SelfTest validates the construction through index.NewSearcher before any
+// history runs.
+const (
+	c19RepoTok = "Q"
+	c19VerTok  = "WXYZ"
+)
 
-func c19Content(repo, ver, doc int) string {
+func c19NumDocs(repo, ver int) int { return 2 + (ver+repo)%2 }
+
+func c19ContentT(repoTok, verTok string, doc, ndocs int) string {
 	var sb strings.Builder
-	fmt.Fprintf(&sb, "%s repo=%d ver=%d doc=%d of=%d\n", c19Marker, repo, ver, doc, c19NumDocs(repo, ver))
-	for i := 0; i < (ver+2*doc)%5; i++ {
-		fmt.Fprintf(&sb, "filler line %d of version %d\n", i, ver)
+	fmt.Fprintf(&sb, "%s repo=%s ver=%s doc=%d of=%d\n", c19Marker, repoTok, verTok, doc, ndocs)
+	for i := 0; i < 1+2*doc; i++ {
+		fmt.Fprintf(&sb, "filler line %d of document %d in a shard of %d\n", i, doc, ndocs)
 	}
 	return sb.String()
 }
 
-func c19Repo(repo, ver int) *zoekt.Repository {
+func c19VerStr(ver int) string { return fmt.Sprintf("%04d", ver) }
+
+func c19Content(repo, ver, doc int) string {
+	return c19ContentT(strconv.Itoa(repo), c19VerStr(ver), doc, c19NumDocs(repo, ver))
+}
+
+func c19RepoT(id uint32, repoTok, idTok, verTok string) *zoekt.Repository {
 	return &zoekt.Repository{
-		ID:        uint32(repo + 1),
-		Name:      fmt.Sprintf("r%d", repo),
-		Branches:  []zoekt.RepositoryBranch{{Name: "HEAD", Version: fmt.Sprintf("v%d", ver)}},
-		RawConfig: map[string]string{"repoid": strconv.Itoa(repo + 1)},
-		Metadata:  map[string]string{"cv": strconv.Itoa(ver)},
+		ID:        id,
+		Name:      "r" + repoTok,
+		Branches:  []zoekt.RepositoryBranch{{Name: "HEAD", Version: "v" + verTok}},
+		RawConfig: map[string]string{"repoid": idTok},
+		Metadata:  map[string]string{"cv": verTok},
 	}
 }
 
-var c19Pool = struct {
-	sync.Mutex
-	m map[[2]int][]byte
-}{m: map[[2]int][]byte{}}
+// c19Repo is the repository description of (repo, ver), as the shard carries
+// it and as sidecars are derived from.
+func c19Repo(repo, ver int) *zoekt.Repository {
+	return c19RepoT(uint32(repo+1), strconv.Itoa(repo), strconv.Itoa(repo+1), c19VerStr(ver))
+}
 
-// c19Shard returns the bytes of the shard of (repo, ver); built once.
+var c19SetupTook time.Duration
+
+var c19Templates = map[int][]byte{} // by number of documents
+
+func c19BuildTemplates() error {
+	var wg sync.WaitGroup
+	var mu sync.Mutex
+	var firstErr error
+	for _, n := range []int{2, 3} {
+		wg.Add(1)
+		go func(n int) {
+			defer wg.Done()
+			b, err := func() ([]byte, error) {
+				sb, err := index.NewShardBuilder(c19RepoT(0, c19RepoTok, c19RepoTok, c19VerTok))
+				if err != nil {
+					return nil, err
+				}
+				for d := 0; d < n; d++ {
+					if err := sb.Add(index.Document{Name: fmt.Sprintf("d%d.txt", d), Content: []byte(c19ContentT(c19RepoTok, c19VerTok, d, n)), Branches: []string{"HEAD"}}); err != nil {
+						return nil, err
+					}
+				}
+				var buf bytes.Buffer
+				if err := sb.Write(&buf); err != nil {
+					return nil, err
+				}
+				return buf.Bytes(), nil
+			}()
+			mu.Lock()
+			defer mu.Unlock()
+			if err != nil && firstErr == nil {
+				firstErr = err
+			}
+			c19Templates[n] = b
+		}(n)
+	}
+	wg.Wait()
+	return firstErr
+}
+
+// c19Shard returns the bytes of the shard of (repo, ver).
 func c19Shard(repo, ver int) ([]byte, error) {
-	c19Pool.Lock()
-	defer c19Pool.Unlock()
-	if b, ok := c19Pool.m[[2]int{repo, ver}]; ok {
-		return b, nil
+	if repo < 0 || repo > 8 || ver < 0 || ver > 9999 {
+		return nil, fmt.Errorf("c19Shard(%d, %d): out of range", repo, ver)
 	}
-	t0 := time.Now()
-	defer func() { fmt.Fprintf(os.Stderr, "DBG build %v\n", time.Since(t0)) }()
-	sb, err := index.NewShardBuilder(c19Repo(repo, ver))
-	if err != nil {
-		return nil, err
+	t := c19Templates[c19NumDocs(repo, ver)]
+	if t == nil {
+		return nil, fmt.Errorf("no template")
 	}
-	for d := 0; d < c19NumDocs(repo, ver); d++ {
-		if err := sb.Add(index.Document{Name: fmt.Sprintf("d%d.txt", d), Content: []byte(c19Content(repo, ver, d)), Branches: []string{"HEAD"}}); err != nil {
-			return nil, err
+	b := bytes.ReplaceAll(t, []byte(c19VerTok), []byte(c19VerStr(ver)))
+	b = bytes.ReplaceAll(b, []byte(`"r`+c19RepoTok+`"`), []byte(`"r`+strconv.Itoa(repo)+`"`))
+	b = bytes.ReplaceAll(b, []byte(`"repoid":"`+c19RepoTok+`"`), []byte(`"repoid":"`+strconv.Itoa(repo+1)+`"`))
+	b = bytes.ReplaceAll(b, []byte("repo="+c19RepoTok+" "), []byte("repo="+strconv.Itoa(repo)+" "))
+	if len(b) != len(t) {
+		return nil, fmt.Errorf("c19Shard: length changed")
+	}
+	return b, nil
+}
+
+// c19SelfTest loads derived shards through the ordinary reader and checks that
+// they are what the harness believes they are.
+func c19SelfTest() error {
+	for _, rv := range [][2]int{{0, 1}, {2, 1}, {1, 9876}, {2, 40}} {
+		repo, ver := rv[0], rv[1]
+		b, err := c19Shard(repo, ver)
+		if err != nil {
+			return err
 		}
+		s, err := index.NewSearcher(&kit.MemFile{Data: b, Nm: fmt.Sprintf("selftest-%d-%d", repo, ver)})
+		if err != nil {
+			return fmt.Errorf("derived shard (%d,%d) does not load: %v", repo, ver, err)
+		}
+		res, err := s.Search(context.Background(), c19Query, &zoekt.SearchOptions{Whole: true})
+		if err != nil {
+			return err
+		}
+		docs := map[int]bool{}
+		for i := range res.Files {
+			d, err := c19Parse(&res.Files[i])
+			if err != nil {
+				return err
+			}
+			if d.repo != repo || d.ver != ver {
+				return fmt.Errorf("derived shard (%d,%d) serves (%d,%d)", repo, ver, d.repo, d.ver)
+			}
+			docs[d.doc] = true
+		}
+		if len(docs) != c19NumDocs(repo, ver) || len(res.Files) != len(docs) {
+			return fmt.Errorf("derived shard (%d,%d) serves %d files, want %d", repo, ver, len(res.Files), c19NumDocs(repo, ver))
+		}
+		rl, err := s.List(context.Background(), &query.Const{Value: true}, nil)
+		if err != nil {
+			return err
+		}
+		want := c19Repo(repo, ver)
+		if len(rl.Repos) != 1 || rl.Repos[0].Repository.Name != want.Name || rl.Repos[0].Repository.ID != want.ID ||
+			fmt.Sprint(rl.Repos[0].Repository.Metadata) != fmt.Sprint(want.Metadata) || rl.Repos[0].Stats.Documents != c19NumDocs(repo, ver) ||
+			fmt.Sprint(rl.Repos[0].Repository.Branches) != fmt.Sprint(want.Branches) {
+			return fmt.Errorf("derived shard (%d,%d) lists as %+v", repo, ver, rl.Repos)
+		}
+		s.Close()
 	}
-	var buf bytes.Buffer
-	if err := sb.Write(&buf); err != nil {
-		return nil, err
-	}
-	c19Pool.m[[2]int{repo, ver}] = buf.Bytes()
-	return buf.Bytes(), nil
+	return nil
 }
 
 // ---------------------------------------------------------------------------
@@ -471,7 +572,7 @@ func (e *c19Env) checkList(when string, want map[string]c19Served) error {
 			return kit.Fail("duplicate-repository", "%s: List returned r%d twice", when, id)
 		}
 		seen[id] = true
-		wantMeta := map[string]string{"cv": strconv.Itoa(s.metaCV)}
+		wantMeta := map[string]string{"cv": c19VerStr(s.metaCV)}
 		if s.metaSV >= 0 {
 			wantMeta["sv"] = strconv.Itoa(s.metaSV)
 		}
@@ -518,8 +619,6 @@ func c19Base2(ps []string) []string {
 }
 
 func (e *c19Env) scanAndCheck(when string) error {
-	t0 := time.Now()
-	defer func() { fmt.Fprintf(os.Stderr, "DBG scanAndCheck %v\n", time.Since(t0)) }()
 	if err := e.dw.scan(); err != nil {
 		return kit.Fail("scan-error", "%s: %v", when, err)
 	}
@@ -605,10 +704,8 @@ func (e *c19Env) deterministic(c *c19Case) error {
 			}
 		case "gc":
 			// run the finalizers of replaced shards (munmap)
-			t0 := time.Now()
 			runtime.GC()
 			runtime.GC()
-			fmt.Fprintf(os.Stderr, "DBG gc %v\n", time.Since(t0))
 			e.label("gc")
 			if err := e.checkSearch(when, e.loaded); err != nil {
 				return err
@@ -896,6 +993,17 @@ func TestVerif_C19(t *testing.T) {
 		"between scans the state of the last scan is served (nothing else triggers a reload in this setup)",
 		"stress mode asserts per search result only: no crash, each repository from exactly one ever-written version with that version's complete, intact document set (a repository may be absent: scan() drops before it loads); convergence is asserted after the directory stopped changing and one more scan ran",
 	)
+	t0 := time.Now()
+	defer func() { t.Logf("templates+selftest took %v", c19SetupTook) }()
+	if err := c19BuildTemplates(); err != nil {
+		t.Fatalf("building the template shards: %v", err)
+	}
+	if err := c19SelfTest(); err != nil {
+		t.Fatalf("harness self-test: %v", err)
+	}
+	runtime.GC()
+	c19SetupTook = time.Since(t0)
+	rec.Set("setup_seconds_wall", int(c19SetupTook.Seconds()))
 	rec.EnableJournal()
 	kit.Property(t, rec, genC19, func(c c19Case) error { return runC19(rec, c) })
 }
